@@ -18,15 +18,3 @@ func (x *Exec) rangeNext(st *State, t *ssa.Next) Val {
 	x.fail("range over string/map not modelled yet")
 	return nil
 }
-func (x *Exec) inLang(pk *Pkg, name string, sv StrVal) *Term {
-	x.fail("regexp not modelled yet")
-	return nil
-}
-func schemaFindSubmatch(x *Exec, st *State, fn *ssa.Function, args []Val, c *ssa.CallCommon) Val {
-	x.fail("regexp not modelled yet")
-	return nil
-}
-func schemaRegexpMatch(x *Exec, st *State, fn *ssa.Function, args []Val, c *ssa.CallCommon) Val {
-	x.fail("regexp not modelled yet")
-	return nil
-}
